@@ -17,9 +17,15 @@ const chunkExport = true
 
 // runChunks replays db.go's Sync loop (db.go:1222-1235, 2050-2095): chunks of at most maxBytes, every chunk opened
 // at the maxOffset the previous one returned, until a chunk is not limited or finds nothing.
-func runChunks(b []byte, ps, n int, cids *cidmap, r *rand.Rand) []chunkOut {
+func runChunks(b []byte, ps, n int, cids *cidmap, r *rand.Rand, all bool) []chunkOut {
 	fs := fhdrSize + ps
-	limits := map[int]bool{fs: true, 2 * fs: true, 3*fs - 1: true, (1 + r.Intn(n)) * fs: true, 1 + r.Intn(n*fs): true}
+	limits := map[int]bool{fs: true, (1 + r.Intn(n)) * fs: true, 1 + r.Intn(n*fs): true}
+	if all {
+		for L := 1; L <= n; L++ {
+			limits[L*fs] = true
+		}
+		limits[3*fs-1] = true
+	}
 	res := []chunkOut{}
 	for maxBytes := range limits {
 		co := chunkOut{L: maxBytes, Parts: []lsOut{}}
